@@ -139,7 +139,8 @@ class FuncAlias(Structured):
     def default(self, place):
         if place.startswith('self.') and place.count('.') == 1:
             a = place.split('.', 1)[1]
-            return Val({'S:' + a}, {'S:' + a})
+            kind = self.scope.param_kinds.get(a) or {'potentials': 'cv', 'marginals': 'cv', 'domain': 'domain', 'cliques': 'list'}.get(a)
+            return Val({'S:' + a}, {'S:' + a}, kind)
         return None
 
     def initial(self):
@@ -400,7 +401,22 @@ class FuncAlias(Structured):
             else:
                 org = self.subst({tok}, binding, m)
             self.site(c, 'call of %s, which does `%s`' % (m.qualname, example), org, via=m)
-        ret = Val(self.subst(s.ret.own, binding, m) or FRESH, self.subst(s.ret.elem, binding, m) or FRESH, s.ret.kind, s.ret.ekind)
+        own_call = self.is_method and recv is not None and U(recv) == 'self' and m.cls is self.fi.cls
+
+        def of_receiver(tokens):
+            # state of the callee's receiver (`S:attr`) handed out by a method called on ANOTHER object: it is part of that object,
+            # not of the caller's self
+            rb = binding.get('self')
+            if own_call or rb is None:
+                return tokens
+            out = set()
+            for t in tokens:
+                if t.startswith('S:'):
+                    out |= set(rb.own | rb.elem)
+                else:
+                    out.add(t)
+            return frozenset(out)
+        ret = Val(self.subst(of_receiver(s.ret.own), binding, m) or FRESH, self.subst(of_receiver(s.ret.elem), binding, m) or FRESH, s.ret.kind, s.ret.ekind)
         if is_ctor:
             ret = Val(FRESH, ret.elem | frozenset().union(*[b.own for k, b in binding.items() if k != 'self'] or [frozenset()]),
                       KIND_OF_CLASS.get(m.cls.name))
